@@ -84,6 +84,13 @@ def run_c10(ctx):
     report(ctx, v1, "C10", "controlled schedules")
     st, v2 = run_sched(ctx, "c10-stress", b["stress"], ["--threads", "16", "--calls", str(b["stress_calls"])])
     report(ctx, v2, "C10", "real-thread stress")
+    # long response series and the first delegated calls of a shared instance, under real threads
+    ser, v3 = run_sched(ctx, "c13-series-stress", b["stress"] // 5)
+    report(ctx, v3, "C10", "then()-series under real threads")
+    race, v4 = run_sched(ctx, "c15-helper-race", b["stress"] * 4)
+    report(ctx, v4, "C10", "helper creation race")
+    ctx.require(ser["stats"].get("series_calls", 0) > 0 and race["stats"].get("delegated_calls", 0) > 0,
+                "series / helper-race stress made no calls")
     # gates
     ctx.require(ctl["executions"] > 0, "no controlled execution ran")
     ctx.require(ctl["exhaustive_cases"] > 0, "no case was enumerated exhaustively")
@@ -93,7 +100,9 @@ def run_c10(ctx):
         ctx.require(any(f in s for s in ctl["sites"]), f"no yield point in {f} was reached")
     ctx.require(st["stats"].get("stress_calls", 0) > 0, "stress made no calls")
     ctx.coverage.update({
-        "evaluations": ctl["executions"] + st["executions"],
+        "evaluations": ctl["executions"] + st["executions"] + ser["executions"] + race["executions"],
+        "series_stress": {"executions": ser["executions"], "calls": ser["stats"].get("series_calls", 0)},
+        "helper_race": {"rounds": race["executions"], "calls": race["stats"].get("delegated_calls", 0)},
         "distinct_nontrivial": ctl["distinct_schedules"] + st["distinct_cases"],
         "rule": "controlled: an evaluation is one execution of a generated concurrent case (2-4 threads x 1-3 calls on "
                 "shared patterns, through clones and a shared &Unimock) under one schedule chosen at the H3 yield points "
